@@ -10,7 +10,19 @@ class NotSpecified(Exception):
     pass
 
 
-def _step(cname, objs, call):
+def _construct(cls, arg, check):
+    """cls(arg, check=check); classes whose constructor has no check keyword are called without it"""
+    import inspect
+    if "check" in inspect.signature(cls.__init__).parameters:
+        return cls(arg, check=check)
+    return cls(arg)
+
+
+def _ext_snap(ext):
+    return (len(ext), tuple(id(a) for a in ext), tuple(a.tobytes() for a in ext))
+
+
+def _step(cname, objs, call, ext=None):
     op = call["op"]
     cls = elems.CLS[cname]
     if op == "ctor-copy" and cname in elems.EXTRA and len(objs[call["src"]]) != 1:
@@ -27,6 +39,10 @@ def _step(cname, objs, call):
         objs[call["dst"]] = cls(objs[call["src"]])
     elif op == "ctor-list":
         objs[call["dst"]] = cls([objs[call["src"]], objs[call["src2"]]])
+    elif op == "ctor-ext":
+        objs[call["dst"]] = _construct(cls, ext, call["check"])
+    elif op == "ctor-A":
+        objs[call["dst"]] = _construct(cls, objs[call["src"]].A, False)
     elif op == "iter-first":
         objs[call["dst"]] = next(iter(objs[call["src"]]))
     elif op == "setitem":
@@ -56,19 +72,23 @@ def _step(cname, objs, call):
 def replay(j, pid, cname, hist, fresh=False):
     objs = {1: elems.inject(cname, [1, 2]), 2: elems.inject(cname, [3])}
     prog = []
+    ext = None
+    if hist and "ext" in hist[0]:
+        ext = [elems.arr(cname, k) for k in hist[0]["ext"]]       # the caller's own list of plain arrays
+        ext0 = _ext_snap(ext)
     for k, st in enumerate(hist):
         call, model = st["call"], st["objs"]
         op = call["op"] + (str(call["i"]) if "i" in call and call["op"] in ("getitem", "setitem") else "")
         prog.append(op)
         # how the objects touched by this step were obtained: the most recent deriving operation of the behaviour
         origin = next((p for p in reversed(prog[:-1]) if p.split("0")[0].split("-1")[0] in
-                       ("getitem", "slice-all", "slice-rev", "ctor-copy", "ctor-list", "iter-first", "append", "insert", "extend", "pop")), "fresh")
+                       ("getitem", "slice-all", "slice-rev", "ctor-copy", "ctor-list", "ctor-ext", "ctor-A", "iter-first", "append", "insert", "extend", "pop")), "fresh")
         cid = ("share", cname, op, origin)
         site = "share.%s" % op
         feat = "%s;after=%s" % (cname, origin)
         detail = {"kind": "sharing", "class": cname, "step": k, "call": call, "program": [s["call"] for s in hist[:k + 1]]}
         try:
-            _step(cname, objs, call)
+            _step(cname, objs, call, ext)
         except NotSpecified:
             j.skip("copy construction of a multi-valued line / spatial vector: not specified, behaviour abandoned")
             return True
@@ -90,6 +110,8 @@ def replay(j, pid, cname, hist, fresh=False):
                         "other": "other-object-modified"}[role], i)
                 detail = dict(detail, object=i, got=[str(x) for x in got[1]], expected=want, got_class=got[0])
                 break
+        if bad is None and ext is not None and _ext_snap(ext) != ext0:
+            bad = ("callers-list-modified", 0)
         if bad:
             j.fail("%s|%s|%s|%s" % (pid, site, feat, bad[0]), detail, cid)
             return False
